@@ -86,8 +86,36 @@ func runC19Env(a hx.Args) string {
 	out.Int(int(b.STM), int(b.FiftyCnt)).B(fenok && epdok)
 	out.Int(int(eval.Eval(b, &eval.Coefficients)), int(eval.Eval(bn, &eval.Coefficients)), int(eval.Eval(&bp, &eval.Coefficients)))
 	raw := eval.Eval(bn, (*eval.CoeffSet[float64])(&er))
-	out.U(math.Float64bits(raw), math.Float64bits(er.Eval(bn)), math.Float64bits(er.Eval(&bp)), math.Float64bits(er.Eval(&be)))
+	// the second of the three tuner evaluations comes from a coefficient object with the life of the
+	// tuner's own: it starts as the zero value, is evaluated, receives the shipped values through
+	// SetVector, has one parameter nudged and restored through the TunedParams pointers with an
+	// evaluation in between (the finite-difference loop) - and then has to evaluate like a fresh copy
+	// of the shipped coefficients (seeded change C19-H cached tables derived from the coefficients on
+	// first use). The judge demands that the three evaluations are equal.
+	live := c19LiveRep(bn, a.Len())
+	out.U(math.Float64bits(raw), math.Float64bits(er.Eval(bn)), math.Float64bits(live.Eval(&bp)), math.Float64bits(er.Eval(&be)))
 	return out.String()
+}
+
+func c19LiveRep(b *board.Board, salt int) *tuning.EngineRep {
+	all := c19Names()
+	all = all[:len(all)-1]
+	live := &tuning.EngineRep{}
+	live.Eval(b)
+	sh := c19Shipped()
+	live.SetVector(sh.ToVector(all), all)
+	k := 0
+	for i, p := range live.TunedParams(all) {
+		if i == salt%c19Floats {
+			*p += 1.5
+			live.Eval(b)
+			*p -= 1.5
+			k++
+			break
+		}
+	}
+	_ = k
+	return live
 }
 
 func runC19Z(a hx.Args) string {
